@@ -153,6 +153,15 @@ func c07Run(r *vt.Run, c c07Case) (points []sim.Point, cutDesc string, found []c
 		stableFrom := -1
 		var lastProblems []string
 		for round := 0; round < c07Rounds; round++ {
+			// clients keep committing while no manager is acting: a half-promoted node that is already
+			// writable takes (and, with its replicas attached, acknowledges) writes before the successor's
+			// first iteration
+			for _, x := range ha {
+				if w.Servers[x].Accepts(w) {
+					w.Write(x)
+				}
+			}
+			dyn()
 			w.Advance(5 * time.Second)
 			dyn()
 			if round == 2 && succ != wd.Manager && w.Procs[h.ID(h.Apps[wd.Manager])].Crashed {
@@ -239,6 +248,9 @@ func c07Final(h *H, spec Spec, wd c07World) []string {
 		if !s.HasSource || s.Source != master || !s.IORunning || !s.SQLRunning {
 			ps = append(ps, fmt.Sprintf("2-replicas-follow-the-master: %s is not a running replica of %s (source=%q io=%v sql=%v)", x, master, s.Source, s.IORunning, s.SQLRunning))
 		}
+	}
+	if ms != nil && ms.HasSource {
+		ps = append(ps, fmt.Sprintf("1-one-writable-master-equal-to-recorded: master %s is itself configured as a replica of %q (io=%v sql=%v)", master, ms.Source, ms.IORunning, ms.SQLRunning))
 	}
 	if ms != nil && ms.Offline {
 		ps = append(ps, fmt.Sprintf("1-one-writable-master-equal-to-recorded: master %s is in offline mode", master))
